@@ -81,7 +81,22 @@ def run(tape, scenario):
     groups = {}          # slot -> dict(marker, runs, inflight, noprog_passes, noprog_tx)
     unreg = {}           # group number -> in-flight frames of unregistered groups
 
+    main_stack = []
+
     async def main(loop):
+        try:
+            await main_body(loop)
+        finally:
+            # unregister whatever was registered, also after a violation ended the run
+            for cm in reversed(main_stack):
+                try:
+                    cm.__exit__(None, None, None)
+                except Exception as e:
+                    if not violations:
+                        viol("unregister-failed", f"{type(e).__name__}: {e}",
+                             exception=type(e).__name__)
+
+    async def main_body(loop):
         await ec.connect()
         stage[0] = "register"
         with_groups = tape.draw("c22/ngroups", 3) if scenario != "foreign" else 1
@@ -97,7 +112,7 @@ def run(tape, scenario):
         env.collide["rand/ebpfcat"] = lambda a, b: (
             tape.pick("c22/slot-collide", sorted(groups)) if groups and (a, b) == (0, 63)
             and tape.chance("c22/collide-slot", 50) else None)
-        stack = []
+        stack = main_stack
         for _ in range(with_groups):
             m = Marker()
             cm = tape.pick("c22/registering-master", masters).register_sync_group(m)
@@ -125,8 +140,6 @@ def run(tape, scenario):
             viol("dispatcher-not-attached", "no XDP program attached after connect()")
             return
         play(prog)
-        for cm in reversed(stack):
-            cm.__exit__(None, None, None)
 
     def counters():
         return ec.ebpf.counters
